@@ -33,6 +33,11 @@ def units():
             Unit("update[screening, static A]", "tdgl.solver.solver:TDGLSolver.update", _upd(True, False), props=["C05"], timeout=900)]
 
 
+def replay_scope(unit, obl):
+    """the native replay of this property searches per unit, not per obligation: run it once per unit"""
+    return "unit"
+
+
 def replay(unit, obl):
     if unit.startswith("update["):
         from checks import update_native
